@@ -44,7 +44,7 @@ META = {
 }
 
 INVS = ["Disjoint", "Transparent", "NoLeak", "InputsReleasedAtEnd", "NoReuse"]
-ALL_FIX = ["cb", "coerce", "stray"]
+ALL_FIX = ["cb", "coerce", "reqseg", "stray"]
 PALETTES = {
     "t1": ["q_m", "r_s", "r_m", "r_d", "r_v", "o_s", "o_m", "o_0", "o_d", "i_m", "i_d"],
     "t1f": ["r_m", "o_m", "o_d", "i_m"],
@@ -135,9 +135,11 @@ def _probe_fixes(cal: dict) -> list[str]:
                {"op": "Begin", "k": "p", "ci": "-", "co": "o_m", "fail": "cb", "nout": 0},
                {"op": "Input", "keep": False}, {"op": "EndCall", "rel": False}],
     }
+    probes["reqseg"] = [{"op": "Unary", "rq": "q_m", "res": "r_s", "out": "ok"}, {"op": "NewSegment"},
+                        {"op": "Unary", "rq": "q_m", "res": "r_s", "out": "ok"}]
     have = []
     for name, script in probes.items():
-        r = W.run_history(script, 1 << 20, "t1", "static", 1, 100)
+        r = W.run_history(script, 1 << 20, "t1", "cached" if name == "reqseg" else "static", 1, 100)
         if r["final"][0] == 0:
             have.append(name)
     return sorted(have)
@@ -185,7 +187,7 @@ def run(ctx: Ctx) -> None:
 
         # ---- (2) spec -> code: histories from the state graph
         def key(s, lab, d):
-            return (lab, s["cfg"]["cap"], s["cfg"]["world"], s["cfg"]["att"], s["seg"], s["st"]["k"], s["st"]["fail"], len(s["mem"]), len(s["held"]),
+            return (lab, s["cfg"]["cap"], s["cfg"]["world"], s["cfg"]["att"], s["seg"]["n"], s["seg"]["used"], s["st"]["k"], s["st"]["fail"], len(s["mem"]), len(s["held"]),
                     d["st"]["io"] != -1, len(d["mem"]), d["st"]["pc"])
 
         paths = g.edge_cover_paths(ctx.rng, max_paths=500 if ctx.quick else 6000, key=key, max_len=60)
@@ -276,6 +278,12 @@ def run(ctx: Ctx) -> None:
                                      "heldchk": real["heldchk"],
                                      "relerrs": real["relerrs"]}})
     bad = table.judge(ctx, "wire", "ShmXferMonitor", observations)
+    def stale_request(r) -> bool:
+        """the history contains: fresh segment on a cached-attach connection, then at once a request routed through it"""
+        ops = r["script"]
+        return r["mode"] == "cached" and any(a["op"] == "NewSegment" and b["op"] == "Unary" and b["rq"] != "-"
+                                             for a, b in zip(ops, ops[1:]))
+
     for i, clauses in bad:
         r = runs[i]
         det = {"script": r["script"], "segment_data_bytes": r["cap"], "threshold": W.THR[r["world"]], "mode": r["mode"],
@@ -284,10 +292,12 @@ def run(ctx: Ctx) -> None:
             if c.startswith("NoLeak@"):
                 call = r["real"]["calls"][int(c.split("@")[1]) - 1]
                 d = call["desc"]
-                ctx.violation("NoLeak", {"call": d["k"], "fail": d["fail"], "mode": r["mode"] if r["mode"] == "pipe" else "shm"},
+                ctx.violation("NoLeak", {"call": d["k"], "fail": d["fail"], "mode": r["mode"] if r["mode"] == "pipe" else "shm",
+                                         "stale_request_after_segment_change": stale_request(r)},
                               {**det, "leaking_call": d, "after_call": call})
             else:
-                ctx.violation(c, {"first_call": r["script"][0].get("k", "u"), "mode": r["mode"]}, det)
+                ctx.violation(c, {"first_call": r["script"][0].get("k", "u"), "mode": r["mode"],
+                                  "stale_request_after_segment_change": stale_request(r)}, det)
     ctx.traces_validated = accepted
     ctx.assume("payload sizes are calibrated on the real allocator; the property clauses are decided by "
                "ShmXferMonitor on header reads and digests only")
@@ -310,7 +320,7 @@ def _validate_traces(ctx, wd, cal, traces, tconst, fx_code) -> list[dict]:
     out = dict(zip(idx, vs))
     rest = [i for i in idx if not out[i]["acc"]]
     if rest:
-        subsets = [[f for j, f in enumerate(ALL_FIX) if m >> j & 1] for m in range(8)]
+        subsets = [[f for j, f in enumerate(ALL_FIX) if m >> j & 1] for m in range(1 << len(ALL_FIX))]
         for i, v in zip(rest, one(rest, subsets, "b")):
             out[i] = v
     return [out[i] for i in idx]
